@@ -98,6 +98,8 @@ class Build:
         store = os.path.join(store_root, digest)
         self.gen = os.path.join(store, 'gen')
         self.functions = em.functions
+        # mutable static / namespace-scope variables of the library, as the extraction found them (C18)
+        self.statics = [x for x in em.prog.statics if not x.startswith('const ')]
         self.t_lower = time.time() - t0
         inc = ['-I', os.path.join(ROOT, 'model'), '-I', self.gen, '-I', os.path.join(ROOT, 'contracts')]
         self.inc = inc
@@ -294,6 +296,15 @@ def unit_cmds(u, b, out):
 def run_unit(u, b, keep=None, trace=False, use_cache=True):
     """Returns dict(unit, obligations, solver_s, wall_s, backend, error)."""
     t0 = time.time()
+    if u.get('mode') == 'ast':
+        # a fact read off the extraction itself (no solver): the library defines no mutable static storage
+        st = getattr(b, 'statics', [])
+        ob = {'id': 'static-storage', 'unit': u['name'], 'status': 'SUCCESS' if not st else 'FAILURE',
+              'desc': 'no mutable static or namespace-scope variable in the library' + ((': found ' + ' | '.join(st)) if st else ''),
+              'file': 'extract/lower.py', 'line': 0, 'fn': '', 'cls': 'frame', 'props': list(u['serves']),
+              'tag': 'no-mutable-static-storage', 'clause': 'every variable of static storage duration defined by the library is const'}
+        return {'unit': u['name'], 'obligations': [ob], 'error': None, 'solver_s': 0.0, 'wall_s': time.time() - t0, 'cached': False,
+                'backend': 'clang AST (extraction)'}
     out = tempfile.mkdtemp(prefix='u_%s.' % u['name'], dir=b.dir)
     res = {'unit': u['name'], 'obligations': [], 'error': None, 'solver_s': 0.0, 'cached': False,
            'backend': {'kissat': 'kissat (external SAT solver)', 'minisat': 'cbmc built-in SAT (minisat2)',
